@@ -30,10 +30,10 @@ import seqcheck
 
 SPEC = {
     "prop": "C14",
-    "lean_targets": ["InfernoVerif.Props.C14", "InfernoVerif.Props.C13Glue", "InfernoVerif.Gen.Dispatch"],
-    "translate": ["Infra"],
+    "lean_targets": ["InfernoVerif.Props.C14", "InfernoVerif.Props.C13Glue", "InfernoVerif.Props.C13GlueProg", "InfernoVerif.Gen.Dispatch"],
+    "translate": ["Infra", "RingProg", "RecordProg"],
     "driver_targets": ["InfernoVerif.Model.Config", "InfernoVerif.Drv.Proto", "InfernoVerif.Gen.Dispatch"],
-    "prop_files": ["InfernoVerif/Props/C14.lean", "InfernoVerif/Props/C13Glue.lean"],
+    "prop_files": ["InfernoVerif/Props/C14.lean", "InfernoVerif/Props/C13Glue.lean", "InfernoVerif/Props/C13GlueProg.lean"],
     "lemma_files": ["InfernoVerif/Lemmas/Config.lean", "InfernoVerif/Lemmas/Record.lean"],
     "model_files": ["InfernoVerif/Model/Config.lean", "InfernoVerif/Model/Record.lean",
                     "InfernoVerif/Model/Shaped.lean", "InfernoVerif/Model/Ring.lean",
